@@ -215,6 +215,11 @@ func Corrupt(r *rand.Rand, root reflect.Value, p Path) (Path, string) {
 			if base.Type().Name() == "WithUnexported" {
 				s = Step{Kind: SField, Name: "priv", Bracket: r.Intn(2) == 0}
 				how = "unexported-field"
+				if r.Intn(2) == 0 {
+					// the embedded struct of unexported type, named itself (usually followed by one of its exported fields)
+					q.Steps = append(q.Steps[:at:at], Step{Kind: SField, Name: "hidden", Bracket: r.Intn(3) == 0}, Step{Kind: SField, Name: "Secret", Bracket: r.Intn(3) == 0})
+					return q, "unexported-embedded-field"
+				}
 			} else {
 				s = Step{Kind: SField, Name: "nope", Bracket: r.Intn(2) == 0}
 				how = "missing-field"
